@@ -25,6 +25,8 @@ def kernel_pack(fams, flavours, which=None):
         _r('FRONT', rk.frontier, fams, flavours),
         _r('TR0', rk.tr0, fams, flavours),
         _r('INIT', dp.init, flavours, fams, which),
+        _r('ENTRY-PASS', dp.entry_pass, flavours, fams, which),
+        _r('CONF', dp.conf_ro, flavours, fams, which),
     ]
     return pack
 
@@ -114,7 +116,7 @@ PROPS['C06'] = dict(
 )
 PROPS['C07'] = dict(
     rules=[_r('ROLES', rk.roles, ALLF, FLAVOURS), _r('EXEC1', rk.exec1, ALLF, FLAVOURS), _r('DISC', rk.disc, ALLF, FLAVOURS, only=DISC6), _r('EXH', rk.exh, ALLF, FLAVOURS),
-           _r('TR0', rk.tr0, ALLF, FLAVOURS), _r('INIT', dp.init, FLAVOURS), _r('METHOD', rk.method, FLAVOURS), _r('REV', rm.rev, FLAVOURS), _r('IT2', rg.it2, FLAVOURS), _r('ORIENT', re_.orient, FLAVOURS)],
+           _r('TR0', rk.tr0, ALLF, FLAVOURS), _r('INIT', dp.init, FLAVOURS), _r('ENTRY-PASS', dp.entry_pass, FLAVOURS), _r('CONF', dp.conf_ro, FLAVOURS), _r('METHOD', rk.method, FLAVOURS), _r('REV', rm.rev, FLAVOURS), _r('IT2', rg.it2, FLAVOURS), _r('ORIENT', re_.orient, FLAVOURS)],
     explanation='All 48 kernels: the callback runs first and exactly once per yielded edge (EXEC1), a rejected edge neither marks, records nor extends reachability (DISC i), the edge handed '
                 'over is the live iterator item or its value-preserving reverse (DISC vi/vii, REV, IT2), every reachable node is expanded once and completely (EXH, DISC ii/iii, INIT), '
                 'and the dispatcher maps Empty/ForEach/Filter correctly (METHOD).',
@@ -123,7 +125,7 @@ PROPS['C07'] = dict(
     assumptions=STD,
 )
 PROPS['C08'] = dict(
-    rules=[_r('ROLES', rk.roles, ALLF, DIRECTED), _r('TR0', rk.tr0, ALLF, DIRECTED), _r('TR1', dp.tr1, DIRECTED), _r('TR2', dp.tr2, DIRECTED), _r('REV', rm.rev, DIRECTED),
+    rules=[_r('ROLES', rk.roles, ALLF, DIRECTED), _r('TR0', rk.tr0, ALLF, DIRECTED), _r('TR1', dp.tr1, DIRECTED), _r('TR2', dp.tr2, DIRECTED), _r('ENTRY-PASS', dp.entry_pass, DIRECTED), _r('CONF', dp.conf_ro, DIRECTED), _r('REV', rm.rev, DIRECTED),
            _r('ORIENT', re_.orient, DIRECTED), _r('DISC', rk.disc, ALLF, DIRECTED, only=DISC6),
            _r('P1', re_.p1_connect, DIRECTED), _r('P2', re_.p2_disconnect_directed, DIRECTED), _r('P3', re_.p3_isolate, DIRECTED), _r('RM1', re_.rm1_first_match, DIRECTED), _r('ADJ-PRIM', re_.adj_prim, DIRECTED)],
     explanation='Directed flavours: every kernel has a well-formed orientation signature (OUT = iter_out + item, IN = iter_in + reversed item; TR0), every entry point sends the Outbound arm '
@@ -151,7 +153,7 @@ PROPS['C10'] = dict(
 )
 
 PROPS['C17'] = dict(
-    rules=[_r('LK1', rg.g3, SYNC, strict=True), _r('LK2', rg.g2, SYNC, rule='LK2'), _r('LK3', rg.lk3, SYNC), _r('LK4', rg.lk4, SYNC), _r('IT2', rg.it2, SYNC), _r('IT1', rg.it1, SYNC)],
+    rules=[_r('LK1', rg.g3, SYNC, strict=True), _r('LK2', rg.g2, SYNC, rule='LK2'), _r('LK3', rg.lk3, SYNC), _r('LK4', rg.lk4, SYNC), _r('LK5', rg.lk5, SYNC), _r('IT2', rg.it2, SYNC), _r('IT1', rg.it1, SYNC)],
     explanation='Only the lock-discipline clauses are decidable statically: no node lock is acquired while another node-lock guard is held, directly or through any callee (LK1: with '
                 'per-node locks and no lock order this is necessary against ABBA and re-entrant read-behind-writer deadlocks, and with LK2 sufficient for deadlock freedom among gdsl\'s '
                 'own locks); no user callback or iterator step runs under a lock (LK2); no panic-capable call under a write guard (LK3: poisoning); every public mutator is one critical '
@@ -164,7 +166,7 @@ PROPS['C17'] = dict(
 )
 
 PROPS['C16'] = dict(
-    rules=[('W16', lambda ctx: r16.w16(ctx)), ('UNS', lambda ctx: r16.uns(ctx))],
+    rules=[('W16', lambda ctx: r16.w16(ctx)), ('UNS', lambda ctx: r16.uns(ctx)), ('UNS-struct', lambda ctx: r16.uns_struct(ctx))],
     level='proof',
     explanation='Decided for all K, N, E by the trait solver on generic obligations: with K,N,E: Send+Sync the sync Node/Edge/Graph are Send and Sync (12 positive witnesses); with any '
                 'one of the six bounds removed the obligation is rejected with E0277 on the assert line (72 negative witnesses, each with a compiling twin); the plain types are never '
